@@ -261,337 +261,78 @@ func execEqualityExprNotEqual(context *exprContext, expr *grammar.Grammar) error
 }
 
 func execRelationalExprLessThan(context *exprContext, expr *grammar.Grammar) error {
-	left, right, err := leftRightIndependentResult(context, expr)
-
-	if err != nil {
-		return err
-	}
-
-	leftNodeSet, leftNodeSetOk := left.(NodeSet)
-	rightNodeSet, rightNodeSetOk := right.(NodeSet)
-
-	if leftNodeSetOk && rightNodeSetOk {
-		for _, leftNode := range leftNodeSet {
-			for _, rightNode := range rightNodeSet {
-				if GetCursorString(leftNode) < GetCursorString(rightNode) {
-					context.result = Bool(true)
-					return nil
-				}
-			}
-		}
-
-		context.result = Bool(false)
-		return nil
-	}
-
-	leftNumber, leftNumberOk := left.(Number)
-
-	if leftNumberOk && rightNodeSetOk {
-		for _, rightNode := range rightNodeSet {
-			if leftNumber < Number(getStringNumber(GetCursorString(rightNode))) {
-				context.result = Bool(true)
-				return nil
-			}
-		}
-
-		context.result = Bool(false)
-		return nil
-	}
-
-	rightNumber, rightNumberOk := right.(Number)
-
-	if leftNodeSetOk && rightNumberOk {
-		for _, leftNode := range leftNodeSet {
-			if Number(getStringNumber(GetCursorString(leftNode))) < rightNumber {
-				context.result = Bool(true)
-				return nil
-			}
-		}
-
-		context.result = Bool(false)
-		return nil
-	}
-
-	leftString, leftStringOk := left.(String)
-
-	if leftStringOk && rightNodeSetOk {
-		for _, rightNode := range rightNodeSet {
-			if leftString < String(GetCursorString(rightNode)) {
-				context.result = Bool(true)
-				return nil
-			}
-		}
-
-		context.result = Bool(false)
-		return nil
-	}
-
-	rightString, rightStringOk := right.(String)
-
-	if leftNodeSetOk && rightStringOk {
-		for _, leftNode := range leftNodeSet {
-			if String(GetCursorString(leftNode)) < rightString {
-				context.result = Bool(true)
-				return nil
-			}
-		}
-
-		context.result = Bool(false)
-		return nil
-	}
-
-	context.result = Bool(left.Number() < right.Number())
-	return nil
+	return execRelationalExpr(context, expr, func(l, r float64) bool { return l < r })
 }
 
 func execRelationalExprLessThanOrEqual(context *exprContext, expr *grammar.Grammar) error {
-	left, right, err := leftRightIndependentResult(context, expr)
-
-	if err != nil {
-		return err
-	}
-
-	leftNodeSet, leftNodeSetOk := left.(NodeSet)
-	rightNodeSet, rightNodeSetOk := right.(NodeSet)
-
-	if leftNodeSetOk && rightNodeSetOk {
-		for _, leftNode := range leftNodeSet {
-			for _, rightNode := range rightNodeSet {
-				if GetCursorString(leftNode) <= GetCursorString(rightNode) {
-					context.result = Bool(true)
-					return nil
-				}
-			}
-		}
-
-		context.result = Bool(false)
-		return nil
-	}
-
-	leftNumber, leftNumberOk := left.(Number)
-
-	if leftNumberOk && rightNodeSetOk {
-		for _, rightNode := range rightNodeSet {
-			if leftNumber <= Number(getStringNumber(GetCursorString(rightNode))) {
-				context.result = Bool(true)
-				return nil
-			}
-		}
-
-		context.result = Bool(false)
-		return nil
-	}
-
-	rightNumber, rightNumberOk := right.(Number)
-
-	if leftNodeSetOk && rightNumberOk {
-		for _, leftNode := range leftNodeSet {
-			if Number(getStringNumber(GetCursorString(leftNode))) <= rightNumber {
-				context.result = Bool(true)
-				return nil
-			}
-		}
-
-		context.result = Bool(false)
-		return nil
-	}
-
-	leftString, leftStringOk := left.(String)
-
-	if leftStringOk && rightNodeSetOk {
-		for _, rightNode := range rightNodeSet {
-			if leftString <= String(GetCursorString(rightNode)) {
-				context.result = Bool(true)
-				return nil
-			}
-		}
-
-		context.result = Bool(false)
-		return nil
-	}
-
-	rightString, rightStringOk := right.(String)
-
-	if leftNodeSetOk && rightStringOk {
-		for _, leftNode := range leftNodeSet {
-			if String(GetCursorString(leftNode)) <= rightString {
-				context.result = Bool(true)
-				return nil
-			}
-		}
-
-		context.result = Bool(false)
-		return nil
-	}
-
-	context.result = Bool(left.Number() <= right.Number())
-	return nil
+	return execRelationalExpr(context, expr, func(l, r float64) bool { return l <= r })
 }
 
 func execRelationalExprGreaterThan(context *exprContext, expr *grammar.Grammar) error {
-	left, right, err := leftRightIndependentResult(context, expr)
-
-	if err != nil {
-		return err
-	}
-
-	leftNodeSet, leftNodeSetOk := left.(NodeSet)
-	rightNodeSet, rightNodeSetOk := right.(NodeSet)
-
-	if leftNodeSetOk && rightNodeSetOk {
-		for _, leftNode := range leftNodeSet {
-			for _, rightNode := range rightNodeSet {
-				if GetCursorString(leftNode) > GetCursorString(rightNode) {
-					context.result = Bool(true)
-					return nil
-				}
-			}
-		}
-
-		context.result = Bool(false)
-		return nil
-	}
-
-	leftNumber, leftNumberOk := left.(Number)
-
-	if leftNumberOk && rightNodeSetOk {
-		for _, rightNode := range rightNodeSet {
-			if leftNumber > Number(getStringNumber(GetCursorString(rightNode))) {
-				context.result = Bool(true)
-				return nil
-			}
-		}
-
-		context.result = Bool(false)
-		return nil
-	}
-
-	rightNumber, rightNumberOk := right.(Number)
-
-	if leftNodeSetOk && rightNumberOk {
-		for _, leftNode := range leftNodeSet {
-			if Number(getStringNumber(GetCursorString(leftNode))) > rightNumber {
-				context.result = Bool(true)
-				return nil
-			}
-		}
-
-		context.result = Bool(false)
-		return nil
-	}
-
-	leftString, leftStringOk := left.(String)
-
-	if leftStringOk && rightNodeSetOk {
-		for _, rightNode := range rightNodeSet {
-			if leftString > String(GetCursorString(rightNode)) {
-				context.result = Bool(true)
-				return nil
-			}
-		}
-
-		context.result = Bool(false)
-		return nil
-	}
-
-	rightString, rightStringOk := right.(String)
-
-	if leftNodeSetOk && rightStringOk {
-		for _, leftNode := range leftNodeSet {
-			if String(GetCursorString(leftNode)) > rightString {
-				context.result = Bool(true)
-				return nil
-			}
-		}
-
-		context.result = Bool(false)
-		return nil
-	}
-
-	context.result = Bool(left.Number() > right.Number())
-	return nil
+	return execRelationalExpr(context, expr, func(l, r float64) bool { return l > r })
 }
 
 func execRelationalExprGreaterThanOrEqual(context *exprContext, expr *grammar.Grammar) error {
+	return execRelationalExpr(context, expr, func(l, r float64) bool { return l >= r })
+}
+
+// The relational operators always compare numbers.  A node-set operand is
+// compared existentially over the string-values of its nodes, except against a
+// boolean, where the node-set is converted with boolean() first.
+func execRelationalExpr(context *exprContext, expr *grammar.Grammar, cmp func(l, r float64) bool) error {
 	left, right, err := leftRightIndependentResult(context, expr)
 
 	if err != nil {
 		return err
 	}
 
+	context.result = Bool(relationalCompare(left, right, cmp))
+	return nil
+}
+
+func relationalCompare(left, right Result, cmp func(l, r float64) bool) bool {
 	leftNodeSet, leftNodeSetOk := left.(NodeSet)
 	rightNodeSet, rightNodeSetOk := right.(NodeSet)
 
 	if leftNodeSetOk && rightNodeSetOk {
 		for _, leftNode := range leftNodeSet {
 			for _, rightNode := range rightNodeSet {
-				if GetCursorString(leftNode) >= GetCursorString(rightNode) {
-					context.result = Bool(true)
-					return nil
+				if cmp(getStringNumber(GetCursorString(leftNode)), getStringNumber(GetCursorString(rightNode))) {
+					return true
 				}
 			}
 		}
 
-		context.result = Bool(false)
-		return nil
+		return false
 	}
 
-	leftNumber, leftNumberOk := left.(Number)
-
-	if leftNumberOk && rightNodeSetOk {
-		for _, rightNode := range rightNodeSet {
-			if leftNumber >= Number(getStringNumber(GetCursorString(rightNode))) {
-				context.result = Bool(true)
-				return nil
-			}
+	if leftNodeSetOk {
+		if _, ok := right.(Bool); ok {
+			return cmp(Bool(leftNodeSet.Bool()).Number(), right.Number())
 		}
 
-		context.result = Bool(false)
-		return nil
-	}
-
-	rightNumber, rightNumberOk := right.(Number)
-
-	if leftNodeSetOk && rightNumberOk {
 		for _, leftNode := range leftNodeSet {
-			if Number(getStringNumber(GetCursorString(leftNode))) >= rightNumber {
-				context.result = Bool(true)
-				return nil
+			if cmp(getStringNumber(GetCursorString(leftNode)), right.Number()) {
+				return true
 			}
 		}
 
-		context.result = Bool(false)
-		return nil
+		return false
 	}
 
-	leftString, leftStringOk := left.(String)
+	if rightNodeSetOk {
+		if _, ok := left.(Bool); ok {
+			return cmp(left.Number(), Bool(rightNodeSet.Bool()).Number())
+		}
 
-	if leftStringOk && rightNodeSetOk {
 		for _, rightNode := range rightNodeSet {
-			if leftString >= String(GetCursorString(rightNode)) {
-				context.result = Bool(true)
-				return nil
+			if cmp(left.Number(), getStringNumber(GetCursorString(rightNode))) {
+				return true
 			}
 		}
 
-		context.result = Bool(false)
-		return nil
+		return false
 	}
 
-	rightString, rightStringOk := right.(String)
-
-	if leftNodeSetOk && rightStringOk {
-		for _, leftNode := range leftNodeSet {
-			if String(GetCursorString(leftNode)) >= rightString {
-				context.result = Bool(true)
-				return nil
-			}
-		}
-
-		context.result = Bool(false)
-		return nil
-	}
-
-	context.result = Bool(left.Number() >= right.Number())
-	return nil
+	return cmp(left.Number(), right.Number())
 }
